@@ -148,7 +148,7 @@ def run_case(case):
             sfx = "" if cycle == 1 else "c"
             ncp.script.clear()
             store.running = p["state"] == "joined"
-            store.stored = p["init"] != "notjoined"
+            store.stored = p["state"] == "joined" or p["init"] != "notjoined"       # a running stack has a stored network
             ctl["up"] = p["up"]
             init_name = "networkInit" if "networkInit" in ncp.cmds else "networkInitExtended"
             if p["init"] == "fail":
@@ -177,7 +177,7 @@ def run_case(case):
 
             def after_reset():
                 store.running = p["state2"] == "joined"
-                store.stored = p["init2"] != "notjoined"
+                store.stored = p["state2"] == "joined" or p["init2"] != "notjoined"
                 ctl["up"] = p["up2"]
                 if p["init2"] == "fail":
                     ncp.script[init_name] = [("values", [store.st(init_name, False)])]
